@@ -1,0 +1,41 @@
+//go:build verif
+
+package builder
+
+import (
+	"sort"
+
+	"github.com/antlr/antlr4/runtime/Go/antlr"
+	"github.com/bilibili/gengine/internal/base"
+	parser "github.com/bilibili/gengine/internal/iantlr/alr"
+	"github.com/bilibili/gengine/internal/iparser"
+)
+
+// VerifFrontEnd runs lexer, parser and listener over a text with an error listener on each and
+// reports the three error lists and the rules the listener built (name, salience), without
+// touching any rule builder.  Verification hook: compiled only with -tags verif.
+func VerifFrontEnd(text string) (lexErrs, parseErrs, listenerErrs []string, names []string, saliences []int64) {
+	kc := base.NewKnowledgeContext()
+	in := antlr.NewInputStream(text)
+	lexer := parser.NewgengineLexer(in)
+	le := iparser.NewGengineErrorListener()
+	lexer.RemoveErrorListeners()
+	lexer.AddErrorListener(le)
+	stream := antlr.NewCommonTokenStream(lexer, antlr.TokenDefaultChannel)
+	listener := iparser.NewGengineParserListener(kc)
+	psr := parser.NewgengineParser(stream)
+	psr.BuildParseTrees = true
+	pe := iparser.NewGengineErrorListener()
+	psr.RemoveErrorListeners()
+	psr.AddErrorListener(pe)
+	antlr.ParseTreeWalkerDefault.Walk(listener, psr.Primary())
+	listenerErrs = append(listenerErrs, listener.ParseErrors...)
+	for n := range kc.RuleEntities {
+		names = append(names, n)
+	}
+	sort.Strings(names)
+	for _, n := range names {
+		saliences = append(saliences, kc.RuleEntities[n].Salience)
+	}
+	return le.GrammarErrors, pe.GrammarErrors, listenerErrs, names, saliences
+}
